@@ -112,7 +112,9 @@ class ConversionSpecifier:
     def _maybe_decode(cls, string: Union[str, bytes]) -> str:
         """We want to treat all fields as text even on a bytes pattern for simplicity."""
         if isinstance(string, bytes):
-            return string.decode("ascii")
+            # latin-1 maps every byte to one character, so mapping keys that are
+            # not ASCII survive
+            return string.decode("latin-1")
         else:
             return string
 
@@ -335,10 +337,7 @@ class PercentFormatString:
                         # A text pattern looks its keys up as str, a bytes pattern
                         # as bytes; a literal key of another type matches nothing.
                         if self.is_bytes and isinstance(key, bytes):
-                            try:
-                                key = key.decode("ascii")
-                            except UnicodeDecodeError:
-                                continue
+                            key = key.decode("latin-1")
                         elif self.is_bytes or not isinstance(key, str):
                             continue
                         seen_keys.add(key)
